@@ -22,6 +22,7 @@ RULE = ('chunk lists {[], [b\'\'], [b\'a\'], [b\'\', b\'abc\', b\'\'], compressi
         'position including after the last byte, the real decompress() must emit exactly the original bytes and complete once; '
         'truncated at EVERY byte (short) / at the position set (long) it must signal on_error and never complete. '
         'Non-trivial = re-chunking with at least one cut; states = distinct (codec, input, cut position class) situations.')
+DEEP_PROBES = ('3 MiB compressible, chunk lengths that are multiples of 65 535, 200 000 equal bytes, 280 kB of noise in 7 000-byte chunks, 4.3 MiB of noise (truncated also at inner frame ends), 1 048 700 chunks (thorough)')
 ASSUMPTIONS = ['long streams are cut only at the stated position set (a capped space, reported as such)',
                'the compressed bytes are those produced by the real compress()']
 LEVEL_TEXT = ('Bounded-exhaustive model checking over chunk schedules and truncation points (the fault dimension) of the real '
